@@ -320,7 +320,7 @@ func evalWorld(r *ev.Run, w world) {
 }
 
 func Run(r *ev.Run) {
-	r.Rule("E1 exhaustive: all ResolveResults with 1 HTTPS record over the full per-record domain (priority{0,1,2} x target{'',t1,t2} x port{0,8443} x hints{none,v4,v6,both} x ECH{nil,e1} x 6 ALPN shapes incl. spare capacity), and with 0, 2 and 3 records over a reduced per-record domain, x 5 Address lists x 3 Additional maps x Port{80,443,8443} x 6 networks x early termination after {never,0,1,2} yields; each compared with a reference function, with a byte-level snapshot (incl. spare capacity) before/after. distinct = distinct worlds yielding >=1 target")
+	r.Rule("E1 exhaustive: all ResolveResults with 1 HTTPS record over the full per-record domain (priority{0,1,2} x target{'',t1,t2} x port{0,8443,80} x hints{none,v4,v6,both} x ECH{nil,e1} x 6 ALPN shapes incl. spare capacity), and with 0, 2 and 3 records over a reduced per-record domain, x 5 Address lists x 3 Additional maps x Port{80,443,8443} x 6 networks x early termination after {never,0,1,2} yields; each compared with a reference function, with a byte-level snapshot (incl. spare capacity) before/after. distinct = distinct worlds yielding >=1 target")
 	r.Assume("reference function in checks/c15 written from the property text and RFC 9460 is correct",
 		"ALPN compared as a set; a record whose target has no known address may contribute nothing or its hints (the property leaves that open)",
 		"addresses are 4-byte IPv4 or 16-byte non-mapped IPv6")
@@ -333,10 +333,11 @@ func Run(r *ev.Run) {
 
 	// family 1: one record, full domain
 	targets := []string{"", "t1", "t2"}
-	p1 := enum.Product{3, 3, 2, 4, 2, len(alpnDomain), len(addrDomain), len(addlDomain), len(ports), len(networks), len(stops)}
+	recPorts := []int{0, 8443, 80}
+	p1 := enum.Product{3, 3, len(recPorts), 4, 2, len(alpnDomain), len(addrDomain), len(addlDomain), len(ports), len(networks), len(stops)}
 	worlds = append(worlds, func(i int) world {
 		d := p1.Decode(i)
-		return world{Recs: []recSpec{{d[0], targets[d[1]], d[2] * 8443, d[3], d[4], d[5]}}, Addr: d[6], Addl: d[7], Port: ports[d[8]], Network: networks[d[9]], Stop: stops[d[10]]}
+		return world{Recs: []recSpec{{d[0], targets[d[1]], recPorts[d[2]], d[3], d[4], d[5]}}, Addr: d[6], Addl: d[7], Port: ports[d[8]], Network: networks[d[9]], Stop: stops[d[10]]}
 	})
 	sizes = append(sizes, p1.Size())
 
@@ -350,6 +351,7 @@ func Run(r *ev.Run) {
 
 	// families 2 and 3: reduced record domain; ECH value = record index+1 so producers are distinguishable
 	type red struct{ prio, tgt, port, hints, alpn int }
+	redPorts := []int{0, 8443, 80}
 	var reds []red
 	prios := []int{0, 1, 2}
 	alpns := []int{0, 3, 4}
@@ -359,7 +361,10 @@ func Run(r *ev.Run) {
 	}
 	for _, pr := range prios {
 		for tg := 0; tg < 2; tg++ {
-			for po := 0; po < 2; po++ {
+			for po := 0; po < 3; po++ {
+				if po == 2 && !r.Thorough() && tg == 1 {
+					continue
+				}
 				for _, hi := range []int{0, 3} {
 					for _, al := range alpns {
 						reds = append(reds, red{pr, tg, po, hi, al})
@@ -388,7 +393,7 @@ func Run(r *ev.Run) {
 			w := world{Addr: addrs[d[n]], Addl: addls[d[n+1]], Port: ports[d[n+2]], Network: nets3[d[n+3]], Stop: stops2[d[n+4]]}
 			for k := 0; k < n; k++ {
 				rd := reds[d[k]]
-				w.Recs = append(w.Recs, recSpec{rd.prio, targets[rd.tgt], rd.port * 8443, rd.hints, k + 1, rd.alpn})
+				w.Recs = append(w.Recs, recSpec{rd.prio, targets[rd.tgt], redPorts[rd.port], rd.hints, k + 1, rd.alpn})
 			}
 			return w
 		})
